@@ -46,6 +46,60 @@ macro_rules! dispatch {
     };
 }
 
+fn mkreplay_for<P: Property>(p: &P, case_path: &Path, out: &Path) -> i32 {
+    install_quiet_panic_hook();
+    let text = match std::fs::read_to_string(case_path) {
+        Ok(t) => t,
+        Err(e) => {
+            println!("HARNESS-ERROR {e}");
+            return EXIT_HARNESS;
+        }
+    };
+    let case: P::Case = match serde_json::from_str(&text) {
+        Ok(c) => c,
+        Err(e) => {
+            println!("HARNESS-ERROR case does not parse: {e}");
+            return EXIT_HARNESS;
+        }
+    };
+    let o = match guarded_execute(p, &case, true) {
+        Ok(o) => o,
+        Err(e) => {
+            println!("HARNESS-ERROR {e}");
+            return EXIT_HARNESS;
+        }
+    };
+    let Some(v) = o.violation else {
+        println!("CLEAN the case does not violate");
+        return EXIT_OK;
+    };
+    use simcore::shrink::Shrinkable;
+    let rf = ReplayFile {
+        property: p.id().to_string(),
+        invariant: v.invariant.clone(),
+        signature: v.signature.clone(),
+        message: v.message.clone(),
+        verif_seed: 0,
+        run: 0,
+        tier: "manual".into(),
+        original_parts: case.parts(),
+        minimised_parts: case.parts(),
+        shrink_executions: 0,
+        case,
+        trace: o.trace,
+    };
+    if let Err(e) = write_replay(out, &rf) {
+        println!("HARNESS-ERROR {e}");
+        return EXIT_HARNESS;
+    }
+    println!("WROTE {} signature={}", out.display(), v.signature);
+    EXIT_VIOLATION
+}
+
+fn mkreplay(id: &str, case_path: &Path, out: &Path) -> i32 {
+    dispatch!(id, mkreplay_for, case_path, out)
+}
+
 fn main() {
     let args: Vec<String> = std::env::args().skip(1).collect();
     let code = match args.first().map(|s| s.as_str()) {
@@ -77,6 +131,8 @@ fn main() {
                 }
             }
         }
+        // physim mkreplay <C14|C18> <case.json> <out.json>: execute a hand-written case and store it as a replay file
+        Some("mkreplay") if args.len() >= 4 => mkreplay(&args[1], Path::new(&args[2]), Path::new(&args[3])),
         Some("selftest") => match c14::self_test().and_then(|_| c18::self_test()) {
             Ok(()) => {
                 println!("chip models and seams: self-test ok");
